@@ -131,9 +131,8 @@ TaskStep(t) ==
                  /\ consumed' = TRUE /\ reader' = "task" /\ rx' = d.rx /\ got' = d.got
                  /\ IF d.out = "more" THEN tk' = [tk EXCEPT ![t].st = "waitmsg"] /\ UNCHANGED fut
                     ELSE Advance(t, IF d.out = "full" THEN "ok" ELSE d.out, fut)
-     ELSE \* close(): `if "form" in __dict__ and done(): await (await self.form).aclose()` - never reads anything,
-          \* but re-raises the cached failure of a form access that went wrong (ASGI; a failed WSGI form is not cached)
-          Advance(t, IF fut["form"] \in Errors /\ ~sc.atomic THEN fut["form"] ELSE "ok", fut) /\ UNCHANGED <<rx, consumed, reader, got>>
+     ELSE \* close(): closes the uploaded files if the form is there and succeeded; never reads anything, never raises
+          Advance(t, "ok", fut) /\ UNCHANGED <<rx, consumed, reader, got>>
   /\ UNCHANGED <<sc, avail>>
 
 \* a task blocked on a shared future wakes up once it has finished
